@@ -36,6 +36,7 @@ MUTANTS = [
     ("C08-b-apply-before-journal", "leveldb/db_write.go", "\t// Write journal.\n\tif err := db.writeJournal(batches, seq, sync); err != nil {", "\tfor _, batch := range batches {\n\t\t_ = batch.putMem(seq, mdb.DB)\n\t}\n\t// Write journal.\n\tif err := db.writeJournal(batches, seq, sync); err != nil {", "C08"),
     ("C09-b-error-path-keeps-lock", "leveldb/db_write.go", "\tif err != nil {\n\t\tdb.unlockWrite(false, 0, err)\n\t\treturn err\n\t}\n\tdefer mdb.decref()", "\tif err != nil {\n\t\treturn err\n\t}\n\tdefer mdb.decref()", "C09"),
     ("C09-d-pending-waiter-not-acked-on-exit", "leveldb/db_compaction.go", "\t\tif x != nil {\n\t\t\tx.ack(ErrClosed)\n\t\t}\n\t\tdb.closeW.Done()\n\t}()\n\n\tfor {\n\t\tselect {\n\t\tcase x = <-db.mcompCmdC:", "\t\tdb.closeW.Done()\n\t}()\n\n\tfor {\n\t\tselect {\n\t\tcase x = <-db.mcompCmdC:", "C09"),
+    ("C09-c-wait-ignores-close", "leveldb/db_compaction.go", "\t// Wait cmd.\n\tselect {\n\tcase err = <-ch:\n\tcase err = <-db.compErrC:\n\tcase <-db.closeC:\n\t\treturn ErrClosed\n\t}\n\treturn err\n}\n\n// Send range compaction request.", "\t// Wait cmd.\n\tselect {\n\tcase err = <-ch:\n\tcase err = <-db.compErrC:\n\t}\n\treturn err\n}\n\n// Send range compaction request.", "C09 C18"),
     ("C10-a-one-ack-missing", "leveldb/db_write.go", "\tfor i := 0; i < merged; i++ {", "\tfor i := 0; i < merged-1; i++ {", "C10"),
     ("C10-d-leader-says-merged-to-overflow", "leveldb/db_write.go", "\t\t\t\t\t\toverflow = true\n\t\t\t\t\t\tbreak merge\n\t\t\t\t\t}\n\t\t\t\t\tbatches = append(batches, incoming.batch)", "\t\t\t\t\t\tdb.writeMergedC <- true\n\t\t\t\t\t\tmerged++\n\t\t\t\t\t\tbreak merge\n\t\t\t\t\t}\n\t\t\t\t\tbatches = append(batches, incoming.batch)", "C10"),
     ("C11-a-seq-published-before-commit", "leveldb/db_transaction.go", "\t\t\tcerr = tr.db.s.commit(&tr.rec, false)", "\t\t\ttr.db.setSeq(tr.seq)\n\t\t\tcerr = tr.db.s.commit(&tr.rec, false)", "C11 C05"),
